@@ -540,3 +540,4 @@ _quick("C13", "C15_mixedkinds", _MIXED, ["-witness", "20"], reach=["end"])
 _quick("C13", "C15_props", "(also under C15) every sequence of 3 kind-compatible value operations with or without property blocks, well-formed frames: every run-time check on these paths is an obligation", ["-witness", "20"], reach=["end"])
 _quick("C13", "C15_pipeline", "(also under C15) PIPELINE frames of well-formed sub-operations: every run-time check on these paths is an obligation", ["-witness", "5"], reach=["end"])
 _thorough("C13", "C15_mixedkinds4", "as C15_mixedkinds with every sequence of 4 operations (72 343 paths)", ["-witness", "50"])
+_thorough("C13", "C15_mixedpaths", "as C15_mixedkinds on the other paths a value operation can take: the first operation by a fresh LOCK, then two more, each by an update of the held lock, a re-entrant re-lock, a value-only request (Expried 0) of another LockId or an UNLOCK of one re-entrant level (54 107 paths): no crash, each request answered exactly once", ["-witness", "50"])
